@@ -383,7 +383,9 @@ def run_file(case, seed):
                 with open("BORN", "w") as w:
                     w.write("\n".join(lines))
                 back = IO.parse_BORN(ph.primitive, filename="BORN")
-                if np.abs(back["born"] - born).max() > 0.51e-8 or np.abs(back["dielectric"] - eps).max() > 0.51e-8 or abs(back.get("factor", 14.399652) - 14.399652) > 1e-6:
+                # written with 8 decimals (error <= 0.5e-8 per number); tensors of symmetry-equivalent atoms are rotated copies R Z R^T
+                # of a written one: the rounding errors combine with weights (|cos|+|sin|)^2 <= 2
+                if np.abs(back["born"] - born).max() > 1.01e-8 or np.abs(back["dielectric"] - eps).max() > 1.01e-8 or abs(back.get("factor", 14.399652) - 14.399652) > 1e-6:
                     return fail("values", "BORN file parses back with max |dZ| = %.3g, |d eps| = %.3g" % (np.abs(back["born"] - born).max(), np.abs(back["dielectric"] - eps).max()))
             elif what == "type-conversion":
                 ds = ph.dataset
